@@ -61,7 +61,8 @@ impl Tree {
 }
 
 const NAMES: &[&str] = &["a", "b", "c", "dir", "é x", "name_that_is_quite_long_to_make_paths_grow_beyond_one_hundred_bytes_in_tar_headers"];
-const EXTS: &[&str] = &["x", "p", "q", "", "txt"];
+// case variants: an extension matches by string equality only
+const EXTS: &[&str] = &["x", "p", "q", "", "txt", "X", "Txt", "P"];
 
 pub fn gen_tree(rng: &mut Rng) -> Tree {
     let mut t = Tree { files: vec![], dirs: vec![vec![]] };
